@@ -33,6 +33,11 @@ def opt_shapes_case(draw, n_inputs=3):
         g.globals[nm] = ty
     helper = M.Func("h0", [(INT, "p0")], INT, M.Block([M.Return(M.Bin("+", M.Var("p0", INT), M.Lit(1, INT, "1")))]), False)
     g.funcs.append(helper)
+    # a void helper that writes the globals behind the caller's back
+    bump = M.Func("bump", [(INT, "p0")], M.VOID, M.Block([
+        M.ExprStmt(M.Assign(M.Var("g0", INT), "=", M.Bin("+", M.Var("g0", INT), M.Var("p0", INT)))),
+        M.ExprStmt(M.Assign(M.Var("g1", FLOAT), "=", M.Bin("*", M.Var("g1", FLOAT), M.Lit(2.0, FLOAT, "2.0"))))]), False)
+    g.funcs.append(bump)
     g.scopes = [gen.Scope()]
     params = [(INT, "p0"), (FLOAT, "p1"), (M.vec("float", 2), "p2")]
     for ty, nm in params:
@@ -76,7 +81,14 @@ def opt_shapes_case(draw, n_inputs=3):
             stmts.append(M.ExprStmt(M.Assign(var, "=", val)))
         # the consumer that immediately loads it again
         use = draw(st.sampled_from(["branch", "branch-else", "index", "call-arg", "return", "second-pair", "loop-cond",
-                                    "field-store", "affix", "while-cond"]))
+                                    "field-store", "affix", "while-cond", "call-writes-it", "call-writes-it"]))
+        if use == "call-writes-it":
+            # store; call something that writes the same global; read it again (in the same basic block)
+            gvar = M.Var("g0" if ty == INT else "g1", ty)
+            stmts.append(M.ExprStmt(M.Assign(gvar, "=", var)))
+            stmts.append(M.ExprStmt(M.Call("bump", [M.Lit(draw(st.integers(1, 5)), INT, None)], M.VOID, 1)))
+            stmts.append(M.ExprStmt(M.Assign(var, "=", M.Bin("+", gvar, var))))
+            continue
         if use in ("branch", "branch-else"):
             body = M.Block([g.assign_stmt() or M.ExprStmt(M.Assign(M.Var("g0", INT), "=", M.Lit(1, INT, "1")))])
             els = M.Block([M.ExprStmt(M.Assign(M.Var("g0", INT), "=", M.Lit(2, INT, "2")))]) if use == "branch-else" else None
@@ -117,7 +129,7 @@ def opt_shapes_case(draw, n_inputs=3):
     stmts.append(M.Return(g.rhs(g.ret_ty, 2)))
     g.pop()
     f = M.Func("f", params, g.ret_ty, M.Block(stmts), True)
-    prog = M.Program(g.structs, globs, [helper, f])
+    prog = M.Program(g.structs, globs, [helper, bump, f])
     inputs = []
     for _ in range(n_inputs):
         args = {nm: draw(gen.value_of(ty, prog)) for ty, nm in params}
